@@ -82,6 +82,7 @@ func scenC04(w *vsim.World, spec *vsim.Spec) {
 	sent := map[string][]tentry{}
 	untrashStarted := map[string]int{}
 	deleteStarted := map[string]int{} // DELETE requests ever started, per hash
+	stalledRenameAt := map[string]time.Time{} // hash -> when a writer that had been in flight for >= TTL renamed its temp file into place
 	lastCopyWrite := map[string]time.Time{} // request task id -> time of the latest data-write step of a block write it performed
 	taskStart := map[string]time.Time{}    // request task id (up to the first '.') -> time of its first filesystem step
 	stalledWriter := map[string]bool{}     // hash -> a PUT that had been in flight for >= TTL renamed its copy into place
@@ -223,6 +224,10 @@ func scenC04(w *vsim.World, spec *vsim.Spec) {
 					found = true
 				}
 			}
+			if !found && stalledWriter[g.hash] && stalledRenameAt[g.hash].After(g.start) {
+				w.ViolationSig("c04/fresh-block-gone", "writer-stalled-a-whole-ttl-replaces-fresher-copy-with-its-old-timestamp", "block %s was PUT/TOUCHed (acknowledged; operation started %s ago), then a PUT of the same block that had been in flight for longer than the TTL (stalled between choosing its timestamp and its rename) replaced that copy with a file carrying its own, TTL-old timestamp, and a trash request removed it; TTL is %s (last step: %+v)", g.hash[:8], now.Sub(g.start), ttl, last)
+				return
+			}
 			if !found {
 				w.Violation("c04/fresh-block-gone", "block %s was PUT/TOUCHed (acknowledged; operation started %s ago) but is on no volume any more; TTL is %s (last step: %+v)", g.hash[:8], now.Sub(g.start), ttl, last)
 				return
@@ -263,6 +268,7 @@ func scenC04(w *vsim.World, spec *vsim.Spec) {
 			base := filepath.Base(s.Path2)
 			if len(base) == 32 {
 				stalledWriter[base] = true
+				stalledRenameAt[base] = time.Now()
 				w.Probe("writer-in-flight-for-a-whole-ttl")
 			}
 		}
